@@ -555,10 +555,11 @@ def run_spec(modname, rel, sp, tree, tr, rng, oracle_names):
             except Exception as e:
                 raise NotExecutable('%s: %s' % (type(e).__name__, str(e)[:120]))
         if got[0] != 'ok':
-            if got[0] == 'typeerror' and not elementwise and not cases:
-                # numpy / pandas vector code: from here on the numbers and masks are ONE ELEMENT of the arrays
+            if got[0] == 'typeerror' and not elementwise:
+                # numpy / pandas vector code: start over, the numbers and masks being ONE ELEMENT of the arrays
                 elementwise = True
                 skipped = {}
+                cases = []
                 continue
             skipped[got[0]] = skipped.get(got[0], 0) + 1
             if got[0] == 'typeerror' and skipped['typeerror'] > NCASES:
@@ -623,7 +624,7 @@ def main():
     report = {'specs': 0, 'executed': 0, 'cases': 0, 'mismatches': [], 'not_executable': {}, 'skipped_inputs': {}}
     vfile = ['From Coq Require Import ZArith QArith Qabs String List Bool.',
              'From CNV Require Import Base.Str Base.QNum.', 'Import ListNotations.', 'Open Scope Z_scope.',
-             'Definition lookupQ (tbl : list (Q * Q)) (x : Q) : Q := match find (fun p => Qeq_bool (fst p) x) tbl with Some p => snd p | None => 0%Q end.',
+             'Definition lookupQ (tbl : list (Q * Q)) (x : Q) : Q := match find (fun p => Qle_bool (Qabs (fst p - x)) ((1 # 1000000000000) * (1 + Qabs x))) tbl with Some p => snd p | None => 0%Q end.   (* the argument Python passed is a float: an inexact quotient differs from the exact one in the last bits *)',
              'Fixpoint list_beq (A : Type) (eq : A -> A -> bool) (a b : list A) : bool := match a, b with [] , [] => true | x :: a\', y :: b\' => eq x y && list_beq A eq a\' b\' | _, _ => false end.']
     index = []   # (spec id, n cases)
     imported = set()
